@@ -9,7 +9,16 @@ CHECKED_EXTRACT = ["copy", "copy_hash", "hard_link", "hard_link_hash", "reflink"
 UNCHECKED_EXTRACT = ["copy_unchecked", "copy_hash_unchecked", "hard_link_unchecked", "hard_link_hash_unchecked",
                      "reflink_unchecked", "reflink_hash_unchecked"]
 
-BUFSETS = [[1], [7], [1024], [8192], [65536], [7, 0, 1024], [1, 8192], [16, 8192, 3], [100, 65536], [4096, 1, 16384]]
+# a buffer-size pattern, or ("to_end", k, pattern): k plain reads, then the rest through read_to_end() - the standard
+# library / runtime then polls the reader with a buffer that is already partly filled
+BUFSETS = [[1], [7], [1024], [8192], [65536], [7, 0, 1024], [1, 8192], [16, 8192, 3], [100, 65536], [4096, 1, 16384],
+           ("to_end", 0, [8192]), ("to_end", 1, [7]), ("to_end", 2, [1024, 1])]
+
+
+def reader_fields(bufs):
+    if isinstance(bufs, tuple):
+        return {"bufs": list(bufs[2]), "to_end_after": bufs[1]}
+    return {"bufs": bufs or [8192]}
 
 
 def available(name, mode):
@@ -19,7 +28,7 @@ def available(name, mode):
 def request(name, cache, key, sri, dest=None, bufs=None):
     by_key = not (name.endswith("_hash") or "_hash_" in name or name == "reader_hash")
     if name in ("reader_key", "reader_hash"):
-        r = {"op": "reader", "cache": cache, "bufs": bufs or [8192]}
+        r = dict({"op": "reader", "cache": cache}, **reader_fields(bufs))
     else:
         r = {"op": name, "cache": cache}
     if by_key:
